@@ -33,6 +33,10 @@ def formula_set(tier):
           ('pred', '>=', ('neg', ('-', X, Y)), F.C0), ('pred', '>=', ('-', ('neg', X), Y), F.C0), ('neg', ('neg', X)), ('-', X, ('neg', Y))]
     for a in ar:
         fs += [a, ('always', None, a), ('prev', a), ('until', None, F.PX, a), ('and', a, F.PY), ('not', a), ('once', (0, 1), a)]
+    # long unparenthesised chains of one connective (the minimal spelling of a left-deep tree has no parentheses at all)
+    fs += F.chain_formulas(4) + F.chain_formulas(5) + ([] if quick else F.chain_formulas(6))
+    X3 = ('pred', '>', ('-', ('-', ('-', X, Y), F.C1), F.C2), F.C0)
+    fs += [X3, ('pred', '>', ('/', ('/', ('/', X, F.C2), F.C2), F.C2), Y), ('pred', '<=', ('+', ('+', ('+', X, Y), F.C1), X), F.C2)]
     out, seen = [], set()
     for f in fs:
         if f not in seen:
